@@ -1,4 +1,5 @@
 import Syzgy.Lemmas.Knn
+import Syzgy.Lemmas.CollSearch
 /-!
 # C16 — listing pages tile the filtered collection
 `items` = the live ids in the fixed listing order with the filter's verdict for each.
@@ -35,6 +36,41 @@ theorem page_infix (off lim : Nat) (items : List (Nat × Bool)) : (listing off l
   · exact (List.drop_suffix _ _).isInfix
   · exact List.IsInfix.trans (List.take_prefix _ _).isInfix (List.drop_suffix _ _).isInfix
 
+/-- is the live document `id` accepted by the filter on its current metadata? -/
+def accepted (docs : DocStore) (flt : Nat → Bytes → Bool) (id : Nat) : Bool :=
+  match docs id with
+  | some d => flt id d.md
+  | none => false
+
+theorem all_specItems (docs : DocStore) (flt : Nat → Bytes → Bool) (L : List Nat) :
+    all (L.filterMap (specItem docs flt)) = L.filter (accepted docs flt) := by
+  induction L with
+  | nil => rfl
+  | cons a r ih =>
+    unfold all at ih ⊢
+    cases hd : docs a with
+    | none => simp [specItem, accepted, hd, ih]
+    | some d =>
+      cases hf : flt a d.md <;> simp [specItem, accepted, hd, hf, ih]
+
+/-- **the listing on a collection** that represents the store `docs` (reached by any history, `CRep2`),
+    with the keys visited in any order `vis` that is a function of the key set (`sort.Strings`): the full
+    listing is the visited live ids accepted by the filter on their current metadata — every accepted
+    live document exactly once — and the page for every `(offset, limit)` is the slice
+    `[offset, offset+limit)` of that one listing -/
+theorem collection_listing (c : Coll) (segs : List Seg) (docs : DocStore) (h : CRep2 c segs docs)
+    (flt : Nat → Bytes → Bool) (vis : List (Bytes × Nat)) (hv : vis.Perm c.sf.index) (off lim : Nat) :
+    all (listItems c flt vis) = (vis.filterMap idOfEntry).filter (accepted docs flt) ∧
+    (all (listItems c flt vis)).Perm ((getAllIDs c).filter (accepted docs flt)) ∧
+    (all (listItems c flt vis)).Nodup ∧
+    listing off lim (listItems c flt vis) = takeLim lim ((all (listItems c flt vis)).drop off) := by
+  obtain ⟨hp, hn⟩ := visited_ids c segs docs h vis hv
+  have e : all (listItems c flt vis) = (vis.filterMap idOfEntry).filter (accepted docs flt) := by
+    rw [listItems_spec c segs docs h flt vis hv, all_specItems]
+  refine ⟨e, ?_, ?_, page_is_slice off lim _⟩
+  · rw [e]; exact hp.filter _
+  · rw [e]; exact hn.sublist List.filter_sublist
+  
 example : listing 1 2 [(1, true), (2, false), (3, true), (4, true), (5, true)] = [3, 4] := by decide
 
 end Syzgy.C16
